@@ -14,6 +14,22 @@ CLAIMED = {
          "Machine-checked proof over the model for all reachable states incl. exactly-full and exactly-empty-at-wrap instants; correspondence check on every run.",
          "Trusted as for C01; additionally the producer is assumed to store only inside the region it was handed (discharged for source.c/filter.c in C05/C10).",
          "DESIGN.md section 5, C02"),
+ "C03": ("lean-channel-conc", "Lean 4 theorems over an interleaving model of channel.c at synchronisation-call granularity: no-lost-wake-up invariant for every schedule (induction over scheduler steps), progress lemmas; lock-discipline table regenerated from channel.c by a clang-AST extractor and re-checked by `decide`; tie: step-by-step co-simulation of the real channel.c on a deterministic scheduler (detsched) over DFS-enumerated schedules, lost-wake-up oracle at DEADLOCK",
+         "Machine-checked proof for all schedules of the model; the safety half (no lost wake-up, lock only held at wait entry) is an invariant, the liveness half is given as bounded-progress lemmas under an assumed fair scheduler.",
+         "Trusted: Lean kernel; detsched (mutex/condvar semantics, a step = interval between synchronisation calls); sequential consistency of plain loads/stores; scheduler fairness for 'eventually'; one writer thread, one thread per reader handle; the extractor (clang AST walk).",
+         "DESIGN.md section 5, C03"),
+ "C11": ("lean-hal", "Lean 4 theorems: protocol automaton accepts the event log (driver calls and device-memory reads/writes) of every HAL call sequence under every driver response oracle, by invariant over the call list; tie: differential correspondence of real camera.c/storage.c/driver.c against a scripted mock driver whose close frees the device (ASan), exhaustive length-5 call scripts + random",
+         "Machine-checked proof over a transcription of the HAL wrappers for all call histories and all driver answers; correspondence on status, reported state and driver call log on every run.",
+         "Trusted: Lean kernel; one handle at a time; complete vtable; describe reports the requested kind; memory events after release observable on the real code only through ASan / pattern fill.",
+         "DESIGN.md section 5, C11"),
+ "C12": ("lean-select", "Lean 4 theorems: selection = first enumerated device of the kind whose whole name the regex engine accepts (engine as a parameter), totality, NUL rule, open/describe agreement by `decide` over the device table extracted from basics.driver.c on every run; a Brzozowski-derivative matcher proved equal to the inductive language semantics with ASCII case folding; tie: differential correspondence of real device.manager.cpp/loader.c/driver.c with real and mock driver libraries, harness-side independent std::regex verdicts, forked children under a watchdog",
+         "Machine-checked proof over the model for all byte strings, kinds, indices and driver subsets; libstdc++'s regex engine is a parameter (validated against the proved matcher on the generated subset).",
+         "Trusted: Lean kernel; libstdc++ std::regex outside the modelled subset; dlopen; the pattern renderer of the layer-2 generator; watchdog expiries (exponential backtracking) are counted, not violations.",
+         "DESIGN.md section 5, C12"),
+ "C13": ("lean-sprops", "Lean 4 theorems: ownership invariant (every live allocation owned by exactly one field of one object) over an abstract heap for every init/set/copy/destroy script with arbitrary byte strings; copy equality, independence, no UAF/double free/leak, NUL termination; tie: differential correspondence of real props/storage.c with a logging allocator (ASan+UBSan), exhaustive short scripts + random",
+         "Machine-checked proof over a transcription of props/storage.c for all op scripts; correspondence on fields, allocation ordinals and alloc/free event sequence on every run.",
+         "Trusted: Lean kernel; malloc returns fresh blocks and never fails; size_t wrap-around not modelled; ill-formed uses (init over an owning object, self-copy) skipped identically.",
+         "DESIGN.md section 5, C13"),
 }
 PLANNED = {}
 ALL = ["C%02d" % i for i in range(1, 19)]
@@ -48,7 +64,12 @@ def main():
             "add_only": True,
         },
         "engines": [
-            {"name": "lean-channel", "path": "lean/AcqVerif/Channel", "serves_properties": ["C01", "C02", "C03", "C05"], "kind_free_text": "Lean 4 model + proofs of channel.c; driver lean/Driver/ChanMain.lean; harness harness/chan"},
+            {"name": "lean-channel", "path": "lean/AcqVerif/Channel", "serves_properties": ["C01", "C02", "C05"], "kind_free_text": "Lean 4 model + proofs of channel.c (Model, Sys, Inv, InvStep); driver lean/Driver/ChanMain.lean; harness harness/chan/h_chan_seq.c"},
+            {"name": "lean-channel-conc", "path": "lean/AcqVerif/Channel/Conc.lean", "serves_properties": ["C03"], "kind_free_text": "interleaving model (Conc, ConcInv, ConcStep), driver lean/Driver/ConcMain.lean, harness harness/chan/h_chan_conc.c on harness/detsched, extractor extract/syncskel.py"},
+            {"name": "detsched", "path": "harness/detsched", "serves_properties": ["C03", "C18"], "kind_free_text": "deterministic scheduler: alternative implementation of the repo's platform.h API (baton-passing pthreads, every synchronisation call a yield point)"},
+            {"name": "lean-hal", "path": "lean/AcqVerif/Hal", "serves_properties": ["C11"], "kind_free_text": "HAL wrappers model + protocol automaton; harness harness/hal"},
+            {"name": "lean-select", "path": "lean/AcqVerif/Select", "serves_properties": ["C12"], "kind_free_text": "device manager model + regex matcher; harness harness/select"},
+            {"name": "lean-sprops", "path": "lean/AcqVerif/SProps", "serves_properties": ["C13"], "kind_free_text": "StorageProperties heap model; harness harness/props"},
         ],
         "checks": checks,
         "not_applicable": na,
